@@ -210,7 +210,7 @@ func ruleC18DataImport(c *Ctx, r *Rep) {
 		if e.Fn != fd || e.Op != "opstore" || e.V == nil {
 			continue
 		}
-		if call, ok := unparen(e.V).(*ast.CallExpr); ok && calleeName(c.Gojq.TypesInfo, call) == "gojq.compiler.pushVariable" && len(call.Args) == 1 {
+		if call, ok := unparen(e.V).(*ast.CallExpr); ok && (calleeName(c.Gojq.TypesInfo, call) == "gojq.compiler.pushVariable" || calleeName(c.Gojq.TypesInfo, call) == "gojq.compiler.createVariable") && len(call.Args) == 1 {
 			names = append(names, c.Src(call.Args[0]))
 		}
 	}
